@@ -120,6 +120,9 @@ pub struct StepOut {
     /// the step ran the alternative build; `dir` is then judged against that build's data
     #[serde(default)]
     pub alt: bool,
+    /// which build ran the step: 0 this tree, 1 other data, 2 other version
+    #[serde(default)]
+    pub build: u8,
 }
 
 #[derive(Serialize, Deserialize, Clone, Debug, Default)]
@@ -157,6 +160,9 @@ pub struct Ctx {
     pub q14_file: PathBuf,
     /// a second build of the same code with other embedded data (C15 "written for other data")
     pub alt: Option<Box<Alt>>,
+    /// a third build of the same code and data under another version number, with another tokenizer
+    /// configuration (C15 "written by another version", for real)
+    pub ver: Option<Box<Alt>>,
     /// the ptrace injector (strace) is usable in this sandbox
     pub caps_strace: bool,
 }
@@ -170,7 +176,15 @@ pub struct Alt {
 
 impl Ctx {
     pub fn session(&self, cpus: usize, faults: Vec<Fault>, ops: Vec<Op>) -> Session {
-        Session { cpus, faults, ops, expected_docs: self.expected_docs, repo: self.repo.clone(), alt: false, rand: 0 }
+        Session { cpus, faults, ops, expected_docs: self.expected_docs, repo: self.repo.clone(), alt: false, ver: false, rand: 0 }
+    }
+    /// the data and reference of build 0 (this tree), 1 (other data) or 2 (other version)
+    pub fn side_b(&self, build: u8) -> (&Shipped, &Reference) {
+        match (build, &self.alt, &self.ver) {
+            (1, Some(a), _) => (&a.shipped, &a.reference),
+            (2, _, Some(v)) => (&v.shipped, &v.reference),
+            _ => (&self.shipped, &self.reference),
+        }
     }
     /// the data and reference against which step `i` of a trace is judged
     pub fn side(&self, alt: bool) -> (&Shipped, &Reference) {
@@ -278,11 +292,16 @@ pub fn run_history(ctx: &Ctx, h: &History, work: &Path, rotate: usize) -> Trace 
                 if s.expected_docs == 0 {
                     s.expected_docs = ctx.expected_docs;
                 }
-                let launcher = match (&ctx.alt, s.alt) {
-                    (Some(a), true) => {
+                let launcher = match (&ctx.alt, s.alt, &ctx.ver, s.ver) {
+                    (Some(a), true, _, _) => {
                         s.repo = a.repo.clone();
                         s.expected_docs = a.shipped.docs();
                         &a.launcher
+                    }
+                    (_, _, Some(v), true) => {
+                        s.repo = v.repo.clone();
+                        s.expected_docs = v.shipped.docs();
+                        &v.launcher
                     }
                     _ => &ctx.launcher,
                 };
@@ -329,8 +348,10 @@ pub fn run_history(ctx: &Ctx, h: &History, work: &Path, rotate: usize) -> Trace 
             }
         };
         let alt = matches!(step, Step::Start { session } if session.alt) && ctx.alt.is_some();
-        let dir = dirstate::inspect(&xdg, ctx.side(alt).0);
-        trace.steps.push(StepOut { dir, child, alt });
+        let ver = matches!(step, Step::Start { session } if session.ver) && ctx.ver.is_some();
+        let build = if alt { 1 } else if ver { 2 } else { 0 };
+        let dir = dirstate::inspect(&xdg, ctx.side_b(build).0);
+        trace.steps.push(StepOut { dir, child, alt, build });
     }
     if own_disk {
         tmpfs_umount(&xdg.root);
@@ -396,7 +417,7 @@ fn prior_class(ctx: &Ctx, trace: &Trace, step: usize) -> String {
         "meta[absent] index[absent]".to_string()
     } else {
         let p = &trace.steps[step - 1];
-        format!("{}{}", p.dir.class(ctx.side(p.alt).1), if p.alt { " (other build)" } else { "" })
+        format!("{}{}", p.dir.class(ctx.side_b(p.build).1), match p.build { 1 => " (other build)", 2 => " (other version)", _ => "" })
     }
 }
 
@@ -513,7 +534,7 @@ pub fn judge_c15(ctx: &Ctx, h: &History, trace: &Trace) -> Vec<Violation> {
             last_good_answers = None;
             continue;
         }
-        let reference = ctx.side(so.alt).1;
+        let reference = ctx.side_b(so.build).1;
         // 1. never current before committed
         if so.dir.meta_is_current(reference) {
             if let IndexInfo::Open { shipped: false, docs, missing, extra, undecodable, .. } = &so.dir.index {
@@ -590,7 +611,7 @@ pub fn judge_c15(ctx: &Ctx, h: &History, trace: &Trace) -> Vec<Violation> {
         }
         // 3. a following reopen gives the same answers
         let disk_owned: Vec<Answer> = disk.iter().map(|a| (*a).clone()).collect();
-        if let Some((pi, prev)) = last_good_answers.as_ref().filter(|(pi, _)| trace.steps[*pi].alt == so.alt) {
+        if let Some((pi, prev)) = last_good_answers.as_ref().filter(|(pi, _)| trace.steps[*pi].build == so.build) {
             let pm: BTreeMap<&str, &Answer> = prev.iter().map(|a| (a.q.as_str(), a)).collect();
             let mut d = Vec::new();
             for a in &disk_owned {
